@@ -54,6 +54,9 @@ class Check:
     def warmup(self) -> None:
         pass
 
+    def heartbeat(self) -> None:
+        """Set by the worker: tells the parent's watchdog that a long run is still making progress."""
+
 
 def load(prop: str) -> Check:
     mod = importlib.import_module("dsim.checks.%s" % prop.lower())
